@@ -638,3 +638,34 @@ Definition load (chk : bool) (now wall : Z) (b : bytes) : lstatus * list db * rd
 Definition load_status (r : lstatus * list db * rd) : lstatus := fst (fst r).
 Definition load_dbs (r : lstatus * list db * rd) : list db := snd (fst r).
 Definition load_resv (r : lstatus * list db * rd) : Z := r_resv (snd r).
+
+(** ------------------------------------------------------------------ *)
+(** * The dump file on disk (RdbEngine::save, rdb.rs:136-160): write everything to
+      <file>.tmp (created/truncated), flush, rename over the dump.  A save is a list of
+      write calls (the flush counts as the last one); [failat = Some k] = the k-th call
+      (0-based) fails, [open_fails] = the temporary file cannot be created. *)
+Record disk := { dk_dump : option bytes; dk_tmp : option bytes }.
+
+Fixpoint do_writes (ws : list bytes) (failat : option nat) (acc : bytes) : bytes * bool :=
+  match ws with
+  | [] => (acc, true)
+  | w :: r =>
+      match failat with
+      | Some O => (acc, false)
+      | Some (S k) => do_writes r (Some k) (acc ++ w)
+      | None => do_writes r None (acc ++ w)
+      end
+  end.
+
+Definition save_run (ws : list bytes) (failat : option nat) (open_fails rename_fails : bool) (d : disk) : disk * bool :=
+  if open_fails then (d, false) else
+  match do_writes ws failat [] with
+  | (b, true) => if rename_fails then ({| dk_dump := dk_dump d; dk_tmp := Some b |}, false)
+                 else ({| dk_dump := Some b; dk_tmp := None |}, true)
+  | (b, false) => ({| dk_dump := dk_dump d; dk_tmp := Some b |}, false)
+  end.
+
+(** one save attempt of a history *)
+Record attempt := { a_writes : list bytes; a_failat : option nat; a_open_fails : bool; a_rename_fails : bool }.
+Definition run_attempt (d : disk) (a : attempt) : disk :=
+  fst (save_run (a_writes a) (a_failat a) (a_open_fails a) (a_rename_fails a) d).
